@@ -379,7 +379,7 @@ func verifC16Keys() {
 }
 
 // verifC16ZeroTTLConcurrent: two goroutines look the same name up at the same
-// time (cold entry, or an entry that expired before both started) while the
+// time (an entry that expired before both started) while the
 // upstream answers with TTL 0 - not cacheable.  Such an answer is never handed
 // to the lookup that waited for the entry's lock: each lookup asks upstream
 // itself.  Every schedule with at most two pre-emptions at synchronisation points.
@@ -387,7 +387,13 @@ func verifC16ZeroTTLConcurrent() {
 	vSchedForks(true)
 	vPreemptions(2)
 	clock := int64(5_000_000)
-	timeNow = func() time.Time { return time.Unix(clock, 0) }
+	slowClock := false
+	timeNow = func() time.Time {
+		if slowClock {
+			vStall(5) // (lets the native replay reach the window: both lookups read the old entry before either locks it)
+		}
+		return time.Unix(clock, 0)
+	}
 	queries := 0
 	dns.VerifHook_DoH = func(ctx context.Context, msg *dns.Message, URL string) (*dns.Message, error) {
 		queries++
@@ -396,12 +402,11 @@ func verifC16ZeroTTLConcurrent() {
 		return &dns.Message{QR: 1, Answer: []dns.RR{{Name: "n1", Type: 1, Class: 1, TTL: 0, Data: net.IP{10, 0, 0, byte(n)}}}}, nil
 	}
 	r := &Resolver{cache: newResolverCache()}
-	if vBool() {
-		// an older entry that has expired
-		_, _ = r.resolveOne(context.Background(), "n1", "A")
-		clock += 1000
-		queries = 0
-	}
+	// an older entry that has expired (the cold-entry case is part of verifC16Race)
+	_, _ = r.resolveOne(context.Background(), "n1", "A")
+	clock += 1000
+	queries = 0
+	slowClock = true
 	done := make(chan byte, 2)
 	for i := 0; i < 2; i++ {
 		go func() {
